@@ -298,7 +298,7 @@ def check(case):
     changes = 0
     records = {}
     for rec in a.events:
-        records.setdefault(id(rec.event), []).append(float(rec.t))
+        records.setdefault(id(getattr(rec.event, "__self__", rec.event)), []).append(float(rec.t))
     for j, ev in enumerate(r.evs):
         if case.get("judge_events") is not None and j not in case["judge_events"]:
             continue
